@@ -5,6 +5,7 @@
 -/
 import Bnum.Model.Shift
 import Bnum.Lemmas.AddSub
+import Bnum.Lemmas.AddSub2
 set_option linter.unusedVariables false
 namespace Bnum
 namespace Shift
@@ -376,4 +377,142 @@ theorem uncheckedShrPadInternal_spec {w n s : Nat} {a : List Nat} (neg : Bool) (
       rw [hsrc.1] at this
       rw [hdiv, hM, ← hQ]; omega
 end UI
+namespace Shift
+theorem isNegative_iff_U {w n : Nat} {x : List Nat} (hw : 1 ≤ w) (hn : 1 ≤ n) (hx : WF w n x) :
+    (isNegative w x = true ↔ M w n ≤ 2 * U w x) := by
+  rw [isNegative_iff' hw hn hx, S_def, hx.1]
+  have := U_lt hx
+  unfold toInt; split <;> omega
+
+theorem two_pow_sub_mul {W s : Nat} (h : s ≤ W) : 2 ^ (W - s) * 2 ^ s = 2 ^ W := by
+  rw [← Nat.pow_add]; congr 1; omega
+
+/-- `BInt` right shift by `s < BITS`: pad chosen by the sign ⇒ floor division of the signed value -/
+theorem shrPad_signed {w n s : Nat} {a : List Nat} (hw : 1 ≤ w) (hn : 1 ≤ n) (ha : WF w n a)
+    (hs : s < w * n) :
+    WF w n (UI.uncheckedShrPadInternal w (isNegative w a) a s) ∧
+    S w (UI.uncheckedShrPadInternal w (isNegative w a) a s) = S w a / 2 ^ s := by
+  obtain ⟨h1, h2⟩ := UI.uncheckedShrPadInternal_spec (isNegative w a) hw ha hs
+  refine ⟨h1, ?_⟩
+  have hneg := isNegative_iff_U hw hn ha
+  have hQ : 2 ^ (w * n - s) * 2 ^ s = M w n := two_pow_sub_mul (Nat.le_of_lt hs)
+  have hu := U_lt ha
+  have hP := two_pow_pos s
+  rw [S_def, S_def, h1.1, ha.1]
+  generalize UI.uncheckedShrPadInternal w (isNegative w a) a s = r at *
+  have hdiv : U w a / 2 ^ s ≤ U w a := Nat.div_le_self _ _
+  have hcast : ((U w a / 2 ^ s : Nat) : Int) = (U w a : Int) / 2 ^ s := by push_cast; rfl
+  cases hN : isNegative w a with
+  | false =>
+    rw [hN] at h2 hneg
+    simp only [Bool.false_eq_true, if_false, Nat.add_zero, false_iff, Nat.not_le] at h2 hneg
+    rw [toInt_of_lt hneg, toInt_of_lt (by omega), h2, hcast]
+  | true =>
+    rw [hN] at h2 hneg
+    simp only [if_true, true_iff] at h2 hneg
+    have hge : M w n ≤ 2 * U w r := by
+      rcases Nat.eq_zero_or_pos s with h0 | h0
+      · subst h0; simp at hQ h2; omega
+      · generalize U w a / 2 ^ s = t at h2 hdiv
+        have : 2 ^ s = 2 * 2 ^ (s - 1) := by
+          rw [← Nat.pow_succ']; congr 1; omega
+        rw [this] at hQ
+        generalize 2 ^ (w * n - s) = q at *
+        have e : q * (2 * 2 ^ (s - 1)) = 2 * q * 2 ^ (s - 1) := by ring
+        have : 2 * q * 1 ≤ 2 * q * 2 ^ (s - 1) := Nat.mul_le_mul_left _ (two_pow_pos _)
+        rw [e] at hQ
+        omega
+    rw [toInt_of_ge hneg, toInt_of_ge hge]
+    have e : (U w a : Int) - (M w n : Int) = (U w a : Int) + (-(2 ^ (w * n - s) : Int)) * 2 ^ s := by
+      rw [← hQ]; push_cast; ring
+    rw [e, Int.add_mul_ediv_right _ _ (by positivity), ← hcast]
+    have : (U w r : Int) + (2 ^ (w * n - s) : Int) = (U w a / 2 ^ s : Nat) + (M w n : Int) := by
+      exact_mod_cast h2
+    omega
+end Shift
+namespace Shift
+
+/-- cyclic left rotation of a `W`-bit pattern by `r ≤ W` places -/
+def rotN (W x r : Nat) : Nat := (x * 2 ^ r) % 2 ^ W + x / 2 ^ (W - r)
+
+theorem rot_split (P Q h l : Nat) (hl : l < Q) (hP : 0 < P) :
+    ((h * Q + l) * P) % (P * Q) + (h * Q + l) / Q = l * P + h := by
+  have hQ : 0 < Q := by omega
+  have e : (h * Q + l) * P = l * P + (P * Q) * h := by ring
+  have hlt : l * P < P * Q := by
+    rw [Nat.mul_comm P Q]; exact Nat.mul_lt_mul_of_pos_right hl hP
+  have : (h * Q + l) / Q = h := by
+    rw [Nat.add_comm, Nat.mul_comm, Nat.add_mul_div_left _ _ hQ, Nat.div_eq_of_lt hl, Nat.zero_add]
+  rw [this, e, Nat.add_mul_mod_self_left, Nat.mod_eq_of_lt hlt]
+
+theorem rotN_split {W r h l : Nat} (hr : r ≤ W) (hl : l < 2 ^ (W - r)) :
+    rotN W (h * 2 ^ (W - r) + l) r = l * 2 ^ r + h := by
+  unfold rotN
+  have : 2 ^ W = 2 ^ r * 2 ^ (W - r) := by rw [← Nat.pow_add]; congr 1; omega
+  rw [this]; exact rot_split _ _ h l hl (two_pow_pos r)
+
+theorem rotN_zero (W x : Nat) (hx : x < 2 ^ W) : rotN W x 0 = x := by
+  unfold rotN; simp [Nat.mod_eq_of_lt hx, Nat.div_eq_of_lt hx]
+
+theorem rotN_full (W x : Nat) : rotN W x W = x := by
+  unfold rotN; simp
+
+theorem rotN_lt {W x r : Nat} (hr : r ≤ W) (hx : x < 2 ^ W) : rotN W x r < 2 ^ W := by
+  have hQ := two_pow_pos (W - r)
+  have e := Nat.div_add_mod x (2 ^ (W - r))
+  have hl := Nat.mod_lt x hQ
+  have hh : x / 2 ^ (W - r) < 2 ^ r := by
+    apply Nat.div_lt_of_lt_mul; rw [← Nat.pow_add]; rwa [show W - r + r = W by omega]
+  rw [← e, Nat.mul_comm, rotN_split hr hl]
+  have : 2 ^ W = 2 ^ (W - r) * 2 ^ r := by rw [← Nat.pow_add]; congr 1; omega
+  rw [this]
+  generalize x / 2 ^ (W - r) = h at *; generalize x % 2 ^ (W - r) = l at *
+  generalize 2 ^ (W - r) = Q at *; generalize 2 ^ r = P at *
+  have : (l + 1) * P ≤ Q * P := Nat.mul_le_mul_right _ hl
+  rw [Nat.add_mul] at this; omega
+
+/-- rotations compose -/
+theorem rotN_add {W x r1 r2 : Nat} (hx : x < 2 ^ W) (hr : r1 + r2 ≤ W) :
+    rotN W (rotN W x r1) r2 = rotN W x (r1 + r2) := by
+  -- x = x2·2^(W-r1) + x1·2^(W-r1-r2) + x0
+  have hA := two_pow_pos r1
+  have hB := two_pow_pos r2
+  have hC := two_pow_pos (W - r1 - r2)
+  have e1 : 2 ^ (W - r1) = 2 ^ r2 * 2 ^ (W - r1 - r2) := by rw [← Nat.pow_add]; congr 1; omega
+  have e2 : 2 ^ (W - r2) = 2 ^ r1 * 2 ^ (W - r1 - r2) := by rw [← Nat.pow_add]; congr 1; omega
+  have e3 : 2 ^ (r1 + r2) = 2 ^ r1 * 2 ^ r2 := Nat.pow_add _ _ _
+  have e4 : 2 ^ (W - (r1 + r2)) = 2 ^ (W - r1 - r2) := by congr 1; omega
+  have eW : 2 ^ W = 2 ^ r1 * 2 ^ r2 * 2 ^ (W - r1 - r2) := by
+    rw [← Nat.pow_add, ← Nat.pow_add]; congr 1; omega
+  have d1 := Nat.div_add_mod x (2 ^ (W - r1))
+  have d2 := Nat.div_add_mod (x % 2 ^ (W - r1)) (2 ^ (W - r1 - r2))
+  have b0 := Nat.mod_lt (x % 2 ^ (W - r1)) hC
+  have b1 : x % 2 ^ (W - r1) / 2 ^ (W - r1 - r2) < 2 ^ r2 := by
+    apply Nat.div_lt_of_lt_mul; rw [Nat.mul_comm, ← e1]; exact Nat.mod_lt _ (two_pow_pos _)
+  have b2 : x / 2 ^ (W - r1) < 2 ^ r1 := by
+    apply Nat.div_lt_of_lt_mul; rw [← Nat.pow_add]; rwa [show W - r1 + r1 = W by omega]
+  have bl := Nat.mod_lt x (two_pow_pos (W - r1))
+  generalize x / 2 ^ (W - r1) = x2 at *
+  generalize hrest : x % 2 ^ (W - r1) = rest at *
+  generalize rest / 2 ^ (W - r1 - r2) = x1 at *
+  generalize rest % 2 ^ (W - r1 - r2) = x0 at *
+  -- step 1
+  have s1 : rotN W x r1 = x1 * 2 ^ (W - r2) + (x0 * 2 ^ r1 + x2) := by
+    rw [← d1, Nat.mul_comm, rotN_split (by omega) bl, ← d2, e2]; ring
+  -- step 2
+  have hl2 : x0 * 2 ^ r1 + x2 < 2 ^ (W - r2) := by
+    rw [e2]
+    generalize 2 ^ r1 = A at *; generalize 2 ^ (W - r1 - r2) = C at *
+    have : (x0 + 1) * A ≤ C * A := Nat.mul_le_mul_right _ b0
+    rw [Nat.add_mul] at this; rw [Nat.mul_comm A C]; omega
+  have s2 : rotN W (rotN W x r1) r2 = (x0 * 2 ^ r1 + x2) * 2 ^ r2 + x1 := by
+    rw [s1, rotN_split (by omega) hl2]
+  -- step 3
+  have s3 : rotN W x (r1 + r2) = x0 * 2 ^ (r1 + r2) + (x2 * 2 ^ r2 + x1) := by
+    have : x = (x2 * 2 ^ r2 + x1) * 2 ^ (W - (r1 + r2)) + x0 := by
+      rw [← d1, ← d2, e4, e1]; ring
+    rw [this, rotN_split hr (by rw [e4]; exact b0)]
+  rw [s2, s3, e3]; ring
+
+end Shift
 end Bnum
